@@ -129,7 +129,7 @@ type Config struct {
 	// Only sound for threads whose remaining behaviour is independent of all other threads;
 	// used to model environment processes that finish "immediately" (see DESIGN.md).
 	Priority func(t *Thread) bool
-	Trace      bool
+	Trace    bool
 }
 
 // Sched is the scheduler of ONE execution.
@@ -150,6 +150,8 @@ type Sched struct {
 	Values      map[string]any // per-execution storage for shims/harness
 	choose      func(p *Point) int
 	lastKeyText string
+	active      bool // a thread is running (the scheduler goroutine is blocked)
+	accessors   map[*Thread]bool
 }
 
 var cur *Sched
@@ -292,6 +294,44 @@ func (s *Sched) park(op *pendingOp) {
 		panic(killSentinel{})
 	}
 }
+
+// FileOpsInterleave switches the file-operation hooks of the rewritten store package on.
+var FileOpsInterleave = true
+
+// FileOp is called (through mcrewrite's fileops mode) before every file-system operation of
+// package store.  As long as a single agent thread uses the store (the dispatcher), file
+// operations are not scheduling points - a store operation is one atomic step, as the
+// design of the agent intends.  As soon as a SECOND thread touches the store, every file
+// operation of every accessor becomes a scheduling point, so that check-then-act races
+// inside the library (exists -> open -> rename) are explored at system-call granularity.
+func FileOp(site string) {
+	s := cur
+	if s == nil || !s.active || !FileOpsInterleave {
+		return
+	}
+	t := s.running
+	if t == nil || t.dying || t.Name == "root" || strings.HasPrefix(t.Site, "client") {
+		return // harness threads: set-up and observers
+	}
+	if s.accessors == nil {
+		s.accessors = map[*Thread]bool{}
+	}
+	s.accessors[t] = true
+	if len(s.accessors) > 1 {
+		// from now on (and, after the explorer restarted, from the very beginning of every
+		// execution) file operations are scheduling points
+		MultiAccessor = true
+	}
+	if MultiAccessor {
+		Yield("fileop@" + site)
+	}
+}
+
+// MultiAccessor is set (process-wide) once two agent threads were seen inside the store.
+var MultiAccessor bool
+
+// StoreAccessors returns how many distinct agent threads performed store file operations.
+func (s *Sched) StoreAccessors() int { return len(s.accessors) }
 
 // Yield is an explicit scheduling point without effect.
 func Yield(site string) {
@@ -571,8 +611,10 @@ func (s *Sched) loop() Outcome {
 			s.running = t
 			t.pend = nil
 			s.recordHist(t, op)
+			s.active = true
 			t.wake <- struct{}{}
 			<-s.yield
+			s.active = false
 		}
 		if s.cfg.WantKeys {
 			p.KeyAfter = s.Key()
